@@ -7002,6 +7002,9 @@ ZSTD_compressSequences_internal(ZSTD_CCtx* cctx,
             op += cBlockSize;
             remaining -= blockSize;
             dstCapacity -= cBlockSize;
+            /* this block moved the window too (see the end of the loop) */
+            if (cctx->blockState.prevCBlock->entropy.fse.offcode_repeatMode == FSE_repeat_valid)
+                cctx->blockState.prevCBlock->entropy.fse.offcode_repeatMode = FSE_repeat_check;
             continue;
         }
 
